@@ -964,7 +964,9 @@ pub fn gen_xbgp_case(r: &mut Rng, seeds: &[(u16, u8, String, Vec<u8>)]) -> Strin
         stream.extend(raw_frame(4, &[]));
     }
     let chunks = if r.chance(3, 4) { vec![stream] } else { fragment(r, &stream) };
-    format!("(xbgp {} {})", desc.term(), chunks_term(&chunks))
+    // families whose NLRI decoder is transcribed (phase 2) are diffed against the model like any `bgp` case
+    let tag = if modelled_family(afi, safi) { "bgp" } else { "xbgp" };
+    format!("({} {} {})", tag, desc.term(), chunks_term(&chunks))
 }
 
 // ------------------------------------------------------------------ RTR
